@@ -1,0 +1,73 @@
+/*
+ * Verification hooks (trace points for model-based conformance checking).
+ *
+ * Everything in this header is inert unless the tree is compiled with
+ * -DPHOTON_VERIF.  With the guard off every macro expands to ((void)0) and
+ * no symbol is defined or referenced.
+ *
+ * With the guard on, a single function pointer `photon_verif_hook` is
+ * consulted at each trace point; it is null unless a test harness installs a
+ * sink, so the cost of a disabled trace point is one load and one branch.
+ */
+#pragma once
+
+#ifdef PHOTON_VERIF
+#include <cstdint>
+
+extern "C" {
+// id: event kind (see VT_* constants below); obj: the object the event is
+// about (mutex, semaphore, queue, ...); a,b,c: event specific scalars.
+typedef void (*photon_verif_hook_t)(uint32_t id, const void* obj,
+                                    uint64_t a, uint64_t b, uint64_t c);
+extern photon_verif_hook_t photon_verif_hook;
+}
+
+#define VT_EVT(id, obj, a, b, c)                                          \
+    do {                                                                  \
+        photon_verif_hook_t h_ = photon_verif_hook;                       \
+        if (__builtin_expect(!!h_, 0))                                    \
+            h_((id), (const void*)(obj), (uint64_t)(a), (uint64_t)(b),    \
+               (uint64_t)(c));                                            \
+    } while (0)
+
+// Event kinds. Numbers are stable; harnesses map them to names.
+enum {
+    VT_SLEEP = 1,        // obj=thread a=waitq b=expire c=now   (prepare_usleep, under locks)
+    VT_WAKE = 2,         // obj=thread a=reason(errno)          (blocking call returns)
+    VT_INTR = 3,         // obj=target a=errno b=path(0 local,1 standby) (prelocked_thread_interrupt)
+    VT_INTR_READY = 4,   // obj=target a=errno b=applied        (thread_interrupt READY branch)
+    VT_EXPIRE = 5,       // obj=thread a=now b=was_sleeping     (resume_threads expiry)
+    VT_DRAIN = 6,        // obj=thread                          (standby drain)
+    VT_YIELD = 7,        // obj=from a=to                        (after goto_next)
+    VT_PRESWITCH = 8,    // obj=from a=to                        (gate point before switch_context)
+    VT_CREATE = 10,      // obj=thread a=vcpu
+    VT_DIE = 11,         // obj=thread
+    VT_JOIN = 12,        // obj=thread a=0 wait,1 reap
+    VT_MIGRATE = 13,     // obj=thread a=to-vcpu
+    VT_STEAL = 14,       // obj=thread a=victim vcpu b=src(0 runq,1 standby)
+    VT_MTX_TRY = 20,     // obj=mutex a=thread b=ok
+    VT_MTX_UNLOCK = 21,  // obj=mutex a=new owner b=queue head c=splock held
+    VT_SEM_SUB = 22,     // obj=sem a=count wanted b=ok c=count after
+    VT_SEM_ADD = 23,     // obj=sem a=added b=count after
+    VT_SEM_RESUME = 24,  // obj=sem a=thread b=count left
+    VT_RW_STATE = 25,    // obj=rwlock a=state after b=mode
+    VT_HEAP_OP = 26,     // obj=sleepq a=op(0 push,1 pop_front,2 pop) b=thread c=size after
+    VT_RL_INSERT = 30,   // obj=rangelock a=offset b=length
+    VT_RL_WAIT = 31,     // obj=rangelock a=offset b=length (of the entry waited on)
+    VT_RL_ERASE = 32,    // obj=rangelock a=offset b=length
+    VT_RL_ADJUST = 33,   // obj=rangelock a=offset b=length c=ok
+    VT_OC_REF = 40,      // obj=item a=refcnt after b=recycle pending c=op
+    VT_OC_EXPIRE = 41,   // obj=item
+    VT_OOO_PHASE = 50,   // obj=ctx a=tag b=phase c=actor ctx
+    VT_OOO_COLLECT = 51, // obj=ctx a=tag b=0 begin,1 end
+    VT_OOO_ERASE = 52,   // obj=ctx a=tag
+    VT_GO_SLOT = 60,     // obj=channel a=0 put,1 take b=was_ready
+    VT_Q_OP = 70,        // obj=queue a=which b=old c=new
+    VT_CH_OP = 71,       // obj=channel a=which b=value
+};
+
+#else  // !PHOTON_VERIF
+
+#define VT_EVT(id, obj, a, b, c) ((void)0)
+
+#endif
